@@ -616,7 +616,7 @@ func (r *Request) executeHandler() {
 				str = e.Message
 			}
 		case error:
-			str = e.Error()
+			str = errString(e)
 			if !r.replied {
 				r.error(ToError(e), r.meta())
 			}
